@@ -6,7 +6,7 @@ Usage: eval_seeds.py confirm|check [property ids...]   Results go into seeded/<i
 restored from git afterwards: committed evidence only ever comes from the unchanged tree."""
 import json, os, shutil, subprocess, sys, glob, time
 ROOT = "/verif"
-ENV = dict(os.environ, GOFLAGS="-mod=mod", GOPROXY="off", GOSUMDB="off", GOTOOLCHAIN="local")
+ENV = dict(os.environ, VERIF_FIRST_FAILURE="1", GOFLAGS="-mod=mod", GOPROXY="off", GOSUMDB="off", GOTOOLCHAIN="local")
 
 def sh(cmd, cwd=None, timeout=1800):
     p = subprocess.run(cmd, cwd=cwd, env=ENV, shell=True, stdout=subprocess.PIPE, stderr=subprocess.STDOUT, text=True, timeout=timeout)
@@ -14,7 +14,7 @@ def sh(cmd, cwd=None, timeout=1800):
 
 def seeds(ids):
     out = []
-    for d in sorted(glob.glob(os.path.join(ROOT, "seeded", "C[0-9][0-9]-[0-9]"))):
+    for d in sorted(glob.glob(os.path.join(ROOT, "seeded", "C[0-9][0-9]-[0-9]*"))):
         pid, k = os.path.basename(d).split("-")
         if ids and pid not in ids:
             continue
